@@ -171,7 +171,7 @@ fn main() -> std::process::ExitCode {
         "C01",
         "instruction encodings from a table-driven encoder over every form the x86 dispatcher accepts (70%), byte-level mutations of them (20%) and random 1-15 byte strings (10%), in amd64 mode (3/4) and in the mode-invariant subset for 32-bit x86 (1/4), each with one boundary-biased machine state (GPRs, XMM, flags, scratch memory) aimed with capstone's operand list so that memory operands land in the scratch area; a candidate is a case when falcon lifts it; non-trivial = comparable (no Intrinsic, no FS/GS override, mode-invariant if 32-bit) and the CPU completed the instruction without a fault, so that all registers, flags, memory and the next address were compared; distinct = (mode, capstone mnemonic, operand-form signature, prefix set)",
         Box::new(|_t: Tier| from_tape(700, gen::decode_case)),
-        |t| t.pick(300_000, 30_000_000),
+        |t| t.pick(600_000, 30_000_000),
         check,
     );
     spec.render = cmp::render;
